@@ -2131,7 +2131,10 @@ func c13Progress(w *World, r *Result) {
 				}
 				if passes(fn, header, header) {
 					r.Ok(rule, key, w.Pos(firstPosOf(header)), "every path back to the loop head consumes a token (or calls a function that does on all success paths)")
-				} else if reason, ok := reviewedLoops[FuncName(fn)]; ok {
+				} else if reason, ok := reviewedLoop(fn); ok {
+					if os.Getenv("VERIF_DEBUG") == "counts" {
+						fmt.Printf("REVIEWLOOP\t%s\n", FuncName(fn))
+					}
 					r.Triv(rule, key, w.Pos(firstPosOf(header)), "reviewed: "+reason)
 				} else {
 					r.Bad(rule, key, w.Pos(firstPosOf(header)), "a path returns to the loop head without consuming a token: on some input the parser does not terminate")
@@ -2141,18 +2144,27 @@ func c13Progress(w *World, r *Result) {
 	}
 }
 
-// loops whose progress argument is path-sensitive (same token peeked twice, first-iteration flags)
-var reviewedLoops = map[string]string{
-	"Parser.evaluateBlockContent":       "an iteration that consumes nothing has just seen a termination token (peeked twice without an eat in between) and leaves at the next header test",
-	"Parser.evaluateIf":                 "the first iteration demands and eats 'if'; every later iteration eats 'else' or leaves",
-	"Parser.evaluateImports":            "newline skipping eats per iteration; the import loop parses an import (≥ 1 token) per iteration",
-	"Parser.evaluateFunctionDefinition": "return-type list: every iteration eats a token in the multiple form and leaves otherwise",
-	"Parser.evaluateParams":             "every iteration eats the parameter name or leaves at ')'",
-	"Parser.findAllowed":                "counting loop over the token slice",
-	"Parser.findBefore":                 "counting loop over the token slice",
-	"Parser.skipNewlines":               "eats one token per iteration",
-	"Parser.getUsedFuncs":               "range loops over finite lists",
-	"context.findScope":                 "down-counting loop",
+// loops whose progress argument is path-sensitive: the statement loop of the block reader (the
+// function that takes the termination tokens and a callback and returns the statements): an
+// iteration that consumes nothing has just seen a termination token (peeked twice without an
+// eat in between) and leaves at the next header test. The function is recognised by its
+// shape, not by its name.
+func reviewedLoop(fn *ssa.Function) (string, bool) {
+	hasCallback := false
+	for _, p := range fn.Params {
+		if sig, ok := p.Type().Underlying().(*types.Signature); ok && sig.Results().Len() == 1 && isErrorType(sig.Results().At(0).Type()) {
+			hasCallback = true
+		}
+	}
+	res := fn.Signature.Results()
+	if !hasCallback || res.Len() != 2 || !isErrorType(res.At(1).Type()) {
+		return "", false
+	}
+	sl, ok := res.At(0).Type().Underlying().(*types.Slice)
+	if !ok || namedName(sl.Elem()) != "Statement" {
+		return "", false
+	}
+	return "an iteration that consumes nothing has just seen a termination token (peeked twice without an eat in between) and leaves at the next header test", true
 }
 
 func firstPosOf(b *ssa.BasicBlock) token.Pos {
